@@ -28,7 +28,9 @@ RULE = ("random nestings (depth up to 8) of `with action`, `with action.context(
         "was there and later messages/actions attach there. part 'inherit': flows that have their current action only through a copied context (asyncio task created "
         "inside `with start_action(...)` without `as`, call_soon/call_later callbacks, copy_context().run, a thread started through a copied context) and go on after "
         "the creating block was left, garbage collected and no Action object kept by the harness: the inherited action stays current, blocks entered before or "
-        "after restore it, messages are placed below it (compared by task_uuid/task_level values). non-trivial = an exceptional exit at "
+        "after restore it, messages are placed below it (compared by task_uuid/task_level values). part 'handover': `cm = action.context()` created in one place (under another "
+        "current action, earlier, on another thread, in another asyncio task or context) and entered with `with cm:` elsewhere, 1-3 of them nested: creating changes "
+        "nothing where it is created, the action is current exactly inside the block where it is entered, leaving restores what was current there. non-trivial = an exceptional exit at "
         "depth >=2 (previous action not None); distinct by program shape")
 ASSUMPTIONS = ["generator-held blocks are closed only when the driver's context is what it was at the yield (properly nested use)"]
 BATCH = 50
@@ -46,6 +48,8 @@ def plan(tier, seed):
     specs += [{"part": "recursion", "seed": seed, "lo": i, "hi": min(q, i + 10), "tier": tier} for i in range(0, q, 10)]
     q = 280 if tier == "quick" else 2800
     specs += [{"part": "inherit", "seed": seed, "lo": i, "hi": min(q, i + 35), "tier": tier} for i in range(0, q, 35)]
+    q = 300 if tier == "quick" else 3000
+    specs += [{"part": "handover", "seed": seed, "lo": i, "hi": min(q, i + 50), "tier": tier} for i in range(0, q, 50)]
     return specs
 
 
@@ -840,6 +844,155 @@ def inherit_case(seed, i, res):
             "creator_left_by_exception": exit_exc, "problems": problems[:8]}})
 
 
+def handover_case(seed, i, res):
+    """`cm = action.context()` created at one place (under another current action, earlier, on another thread, in another asyncio
+    task) and entered with `with cm:` somewhere else: merely creating the context manager changes nothing where it is created;
+    the action is current exactly inside the `with cm:` block, where that block is, and leaving it restores what was current there."""
+    import asyncio
+    import contextvars
+    import threading
+    from eliot import current_action, log_message, start_action
+    rng = random.Random("%s:C04:handover:%d" % (seed, i))
+    route = ["later", "thread", "task", "copy_context", "two_threads"][i % 5]
+    disp = rng.choice(["action", "action", "none"])
+    work = rng.choice(["action", "action", "none"])
+    njobs = rng.randint(1, 3)
+    order = rng.choice(["same", "reversed"])
+    problems = []
+    names = {}
+    got = []
+    c = res["counters"]
+    st = {"entered": 0}
+    add_destinations(got.append)
+
+    def name(a):
+        return "None" if a is None else "<Action %s>" % names.get(id(a), "?")
+
+    def expect(action, where):
+        c["context_probes"] = c.get("context_probes", 0) + 1
+        now = current_action()
+        if now is not action:
+            problems.append("%s: current_action() is %s, expected %s" % (where, name(now), name(action)))
+        log_message(message_type="ho:probe")
+        m = got[-1]
+        if action is None:
+            if m["task_level"] != [1]:
+                problems.append("%s: a message logged there with no current action has task_level %r" % (where, m["task_level"]))
+        elif (m["task_uuid"], m["task_level"][:-1]) != (action.task_uuid, action._task_level.as_list()):
+            problems.append("%s: a message logged there is not a direct child of %s: task_level %r (that action's level is %r)" % (
+                where, name(action), m["task_level"], action._task_level.as_list()))
+
+    def make(box):
+        before = current_action()
+        jobs = []
+        cms = []
+        for k in range(njobs):
+            job = start_action(action_type="ho:job", k=k)
+            names[id(job)] = "job-%d" % k
+            jobs.append(job)
+            cms.append(job.context())
+            expect(before, "where job-%d.context() was merely created (not entered)" % k)
+        box["jobs"], box["cms"] = jobs, cms
+
+    def dispatch(box):
+        try:
+            prev = current_action()
+            if disp == "action":
+                with start_action(action_type="ho:dispatcher") as d:
+                    names[id(d)] = "dispatcher"
+                    make(box)
+                    expect(d, "dispatcher's block after creating the context managers")
+                expect(prev, "after the dispatcher's block")
+            else:
+                make(box)
+        except BaseException as e:
+            problems.append("creating the context managers raised %r" % (e,))
+
+    def enter(box, seq, k):
+        if k == len(seq):
+            return
+        j = seq[k]
+        before = current_action()
+        with box["cms"][j] as entered:
+            st["entered"] += 1
+            if entered is not box["jobs"][j]:
+                problems.append("`with cm as x`: x is not the action whose context() it is")
+            expect(box["jobs"][j], "inside `with cm:` (cm = job-%d.context(), created elsewhere: %s)" % (j, route))
+            enter(box, seq, k + 1)
+            expect(box["jobs"][j], "inside `with cm:` of job-%d after its inner block" % j)
+        expect(before, "after leaving `with cm:` of job-%d (entered under %s)" % (j, name(before)))
+
+    def worker(box):
+        try:
+            seq = list(range(njobs))
+            if order == "reversed":
+                seq.reverse()
+            prev = current_action()
+            if work == "action":
+                with start_action(action_type="ho:worker") as w:
+                    names[id(w)] = "worker"
+                    enter(box, seq, 0)
+                    expect(w, "worker's block after the handed-over context managers were left")
+                expect(prev, "after the worker's block")
+            else:
+                enter(box, seq, 0)
+        except BaseException as e:
+            problems.append("entering/leaving a context manager that was created elsewhere (%s) raised %r" % (route, e))
+
+    def in_thread(f, *a):
+        t = threading.Thread(target=f, args=a)
+        t.start()
+        t.join()
+
+    box = {}
+    try:
+        if route == "later":
+            dispatch(box)
+            worker(box)
+        elif route == "thread":
+            dispatch(box)
+            in_thread(worker, box)
+            expect(None, "creating thread after another thread used the context managers")
+        elif route == "two_threads":
+            in_thread(dispatch, box)
+            in_thread(worker, box)
+        elif route == "copy_context":
+            ctx = contextvars.copy_context()
+            dispatch(box)
+            ctx.run(worker, box)
+            expect(None, "creating context after another context used the context managers")
+        else:
+            async def amain():
+                ready = asyncio.Event()
+                done = asyncio.Event()
+
+                async def dispatcher():
+                    dispatch(box)
+                    ready.set()
+                    await done.wait()
+                    expect(None, "dispatcher task after the worker task used the context managers")
+
+                async def work_task():
+                    await ready.wait()
+                    worker(box)
+                    done.set()
+                await asyncio.gather(asyncio.ensure_future(work_task()), asyncio.ensure_future(dispatcher()))
+            asyncio.run(amain())
+        for job in box.get("jobs", ()):
+            job.finish()
+        expect(None, "after everything")
+    except BaseException as e:
+        problems.append("hand-over scenario (%s) raised %r" % (route, e))
+    finally:
+        remove_destination(got.append)
+    res["evals"] += 1
+    c["context_managers_entered_elsewhere"] = c.get("context_managers_entered_elsewhere", 0) + st["entered"]
+    res["nontrivial"].append(h(["handover", route, disp, work, njobs, order]))
+    if problems:
+        res["violations"].append({"msg": problems[0], "mech": None, "detail": {
+            "part": "handover", "case": i, "route": route, "dispatcher": disp, "worker": work, "jobs": njobs, "order": order, "problems": problems[:8]}})
+
+
 def run_case(spec):
     res = {"evals": 0, "nontrivial": [], "counters": {}, "violations": [], "sample": None}
     if spec.get("part") == "scenario":
@@ -855,6 +1008,12 @@ def run_case(spec):
     if spec.get("part") == "recursion":
         for i in range(spec["lo"], spec["hi"]):
             recursion_case(spec["seed"], i, spec["tier"], res)
+        res["sets"] = {"depths": []}
+        return res
+    if spec.get("part") == "handover":
+        import contextvars
+        for i in range(spec["lo"], spec["hi"]):
+            contextvars.copy_context().run(handover_case, spec["seed"], i, res)  # a leaked current action must not reach the next case
         res["sets"] = {"depths": []}
         return res
     if spec.get("part") == "inherit":
@@ -876,4 +1035,6 @@ def finalize(agg, tier):
         return "no recursion ran into the recursion limit with its deepest block entered at the very edge"
     if not agg["counters"].get("inherited_flow_probes", 0):
         return "no flow with an inherited context was probed after its creating block was left"
+    if not agg["counters"].get("context_managers_entered_elsewhere", 0):
+        return "no action.context() manager was entered elsewhere than it was created"
     return None
